@@ -90,15 +90,15 @@ theorem vbiSize_mono {a b : Nat} (h : a ≤ b) : vbiSize a ≤ vbiSize b := by
   repeat' split
   all_goals omega
 
-/-- postcondition of `decode_stream`: the value is in range, its canonical size is at most the
-    bytes read, which are at most 4 and at most the buffer -/
+/-- postcondition of `decode_stream`: the value is in range, exactly its canonical size was
+    read (non-minimal encodings are rejected), at most 4 bytes and at most the buffer -/
 def VRes.Post (r : VRes) (len : Nat) : Prop :=
   match r with
-  | .ok v c => v ≤ vbiMax ∧ vbiSize v ≤ c ∧ c ≤ len ∧ c ≤ 4
+  | .ok v c => v ≤ vbiMax ∧ vbiSize v = c ∧ c ≤ len ∧ c ≤ 4
   | _ => True
 
 theorem vbiDecAux_post (fuel : Nat) (buf : List Nat) (mult value i len : Nat)
-    (hm : mult = 128 ^ i) (hv : value < mult) (hf : i + fuel = 4) (hl : i + buf.length ≤ len) :
+    (hf : i + fuel = 4) (hl : i + buf.length ≤ len) :
     (vbiDecAux fuel buf mult value i len).Post len := by
   induction fuel generalizing buf mult value i with
   | zero => unfold vbiDecAux; split <;> trivial
@@ -108,47 +108,23 @@ theorem vbiDecAux_post (fuel : Nat) (buf : List Nat) (mult value i len : Nat)
     | cons b rest =>
       unfold vbiDecAux
       simp only
+      simp only [List.length_cons] at hl
       split
       · trivial
       · rename_i hle
         split
-        · rename_i hb
-          -- terminator: value' = value + b * mult < 128 * mult
-          have hb' : b % 128 = b := Nat.mod_eq_of_lt hb
-          rw [hb'] at hle ⊢
-          have hlt : value + b * mult < 128 ^ (i + 1) := by
-            rw [Nat.pow_succ, ← hm]
-            have : b * mult ≤ 127 * mult := Nat.mul_le_mul_right _ (by omega)
-            omega
-          simp only [List.length_cons] at hl
-          refine ⟨by omega, ?_, by omega, by omega⟩
-          have hi : i ≤ 3 := by omega
-          unfold vbiSize
-          have h1 : (128:Nat) ^ 1 = 128 := by decide
-          have h2 : (128:Nat) ^ 2 = 16384 := by decide
-          have h3 : (128:Nat) ^ 3 = 2097152 := by decide
-          rcases (by omega : i = 0 ∨ i = 1 ∨ i = 2 ∨ i = 3) with h | h | h | h <;> subst h
-          · rw [h1] at hlt; repeat' split
-            all_goals omega
-          · rw [h2] at hlt; repeat' split
-            all_goals omega
-          · rw [h3] at hlt; repeat' split
-            all_goals omega
-          · repeat' split
-            all_goals omega
-        · simp only [List.length_cons] at hl
-          refine ih rest (mult * 128) _ (i + 1) ?_ ?_ (by omega) (by omega)
-          · rw [Nat.pow_succ, hm]
-          · have : b % 128 < 128 := Nat.mod_lt _ (by omega)
-            have : b % 128 * mult ≤ 127 * mult := Nat.mul_le_mul_right _ (by omega)
-            omega
+        · split
+          · rename_i hs
+            exact ⟨by omega, hs, by omega, by omega⟩
+          · trivial
+        · exact ih rest (mult * 128) _ (i + 1) (by omega) (by omega)
 
 theorem vbiDec_post (buf : List Nat) : (vbiDec buf).Post buf.length := by
   unfold vbiDec
-  exact vbiDecAux_post 4 buf 1 0 0 buf.length (by decide) (by omega) (by omega) (by omega)
+  exact vbiDecAux_post 4 buf 1 0 0 buf.length (by omega) (by omega)
 
 theorem vbiDec_ok {buf : List Nat} {v c : Nat} (h : vbiDec buf = .ok v c) :
-    v ≤ vbiMax ∧ vbiSize v ≤ c ∧ c ≤ buf.length ∧ c ≤ 4 := by
+    v ≤ vbiMax ∧ vbiSize v = c ∧ c ≤ buf.length ∧ c ≤ 4 := by
   have := vbiDec_post buf
   rw [h] at this
   exact this
@@ -201,7 +177,7 @@ theorem SubEntry.parse_sat (data : List Nat) :
 /-! ### Property / Properties -/
 
 theorem parseVbi_sat (id : Nat) (bytes : List Nat) :
-    Sat (parseVbi id bytes) (fun p c => p.size ≤ c + 1 ∧ c ≤ bytes.length ∧ 1 ≤ c) := by
+    Sat (parseVbi id bytes) (fun p c => p.size = c + 1 ∧ c ≤ bytes.length ∧ 1 ≤ c) := by
   unfold parseVbi
   split
   · rename_i v len h
@@ -215,28 +191,28 @@ theorem parseVbi_sat (id : Nat) (bytes : List Nat) :
   · trivial
 
 theorem parseU8_sat (id : Nat) (rest : List Nat) :
-    Sat (parseU8 id rest) (fun p c => p.size ≤ c + 1 ∧ c ≤ rest.length ∧ 1 ≤ c) := by
+    Sat (parseU8 id rest) (fun p c => p.size = c + 1 ∧ c ≤ rest.length ∧ 1 ≤ c) := by
   unfold parseU8
   split
   · trivial
   · refine sat_idx (by omega) fun v => ?_
     split
-    · simp only [sat_ok, Property.size]; omega
+    · simp only [sat_ok, Property.size, true_and]; omega
     · trivial
 
 theorem parseU16_sat (id : Nat) (rest : List Nat) :
-    Sat (parseU16 id rest) (fun p c => p.size ≤ c + 1 ∧ c ≤ rest.length ∧ 1 ≤ c) := by
+    Sat (parseU16 id rest) (fun p c => p.size = c + 1 ∧ c ≤ rest.length ∧ 1 ≤ c) := by
   unfold parseU16
   split
   · trivial
   · refine sat_idx (by omega) fun b0 => sat_idx (by omega) fun b1 => ?_
     simp only
     split
-    · simp only [sat_ok, Property.size]; omega
+    · simp only [sat_ok, Property.size, true_and]; omega
     · trivial
 
 theorem parseU32_sat (id : Nat) (rest : List Nat) :
-    Sat (parseU32 id rest) (fun p c => p.size ≤ c + 1 ∧ c ≤ rest.length ∧ 1 ≤ c) := by
+    Sat (parseU32 id rest) (fun p c => p.size = c + 1 ∧ c ≤ rest.length ∧ 1 ≤ c) := by
   unfold parseU32
   split
   · trivial
@@ -244,23 +220,23 @@ theorem parseU32_sat (id : Nat) (rest : List Nat) :
       sat_idx (by omega) fun b2 => sat_idx (by omega) fun b3 => ?_
     simp only
     split
-    · simp only [sat_ok, Property.size]; omega
+    · simp only [sat_ok, Property.size, true_and]; omega
     · trivial
 
 theorem parsePStr_sat (id : Nat) (rest : List Nat) :
-    Sat (parsePStr id rest) (fun p c => p.size ≤ c + 1 ∧ c ≤ rest.length ∧ 1 ≤ c) := by
+    Sat (parsePStr id rest) (fun p c => p.size = c + 1 ∧ c ≤ rest.length ∧ 1 ≤ c) := by
   unfold parsePStr
   refine sat_bind (decStr_sat rest) fun s c ⟨h1, h2, _⟩ => ?_
   simp only [sat_ok, Property.size, strSize]; omega
 
 theorem parsePBin_sat (id : Nat) (rest : List Nat) :
-    Sat (parsePBin id rest) (fun p c => p.size ≤ c + 1 ∧ c ≤ rest.length ∧ 1 ≤ c) := by
+    Sat (parsePBin id rest) (fun p c => p.size = c + 1 ∧ c ≤ rest.length ∧ 1 ≤ c) := by
   unfold parsePBin
   refine sat_bind (decBin_sat rest) fun s c ⟨h1, h2⟩ => ?_
   simp only [sat_ok, Property.size, strSize]; omega
 
 theorem parsePair_sat (id : Nat) (rest : List Nat) :
-    Sat (parsePair id rest) (fun p c => p.size ≤ c + 1 ∧ c ≤ rest.length ∧ 1 ≤ c) := by
+    Sat (parsePair id rest) (fun p c => p.size = c + 1 ∧ c ≤ rest.length ∧ 1 ≤ c) := by
   unfold parsePair
   refine sat_bind (decStr_sat rest) fun k kc ⟨h1, h2, _⟩ => ?_
   refine sat_sliceFrom (by omega) fun d hd => ?_
@@ -268,7 +244,7 @@ theorem parsePair_sat (id : Nat) (rest : List Nat) :
   simp only [sat_ok, Property.size, strSize]; omega
 
 theorem Property.parse_sat (bytes : List Nat) :
-    Sat (Property.parse bytes) (fun p c => p.size ≤ c ∧ c ≤ bytes.length ∧ 1 ≤ c) := by
+    Sat (Property.parse bytes) (fun p c => p.size = c ∧ c ≤ bytes.length ∧ 1 ≤ c) := by
   unfold Property.parse
   split
   · trivial
@@ -283,7 +259,7 @@ theorem Property.parse_sat (bytes : List Nat) :
     · rename_i sh _
       refine sat_sliceFrom (by omega) fun rest hr => ?_
       simp only
-      refine sat_bind (P := fun p c => p.size ≤ c + 1 ∧ c ≤ rest.length ∧ 1 ≤ c) ?_ fun p c ⟨h1, h2, h3⟩ => ?_
+      refine sat_bind (P := fun p c => p.size = c + 1 ∧ c ≤ rest.length ∧ 1 ≤ c) ?_ fun p c ⟨h1, h2, h3⟩ => ?_
       · cases sh
         · exact parseU8_sat id rest
         · exact parseU16_sat id rest
@@ -298,7 +274,7 @@ theorem Props.size_cons (p : Property) (ps : Props) : Props.size (p :: ps) = p.s
   simp [Props.size]
 
 theorem propsLoop_sat (fuel : Nat) (region : List Nat) (hf : region.length ≤ fuel) :
-    Sat (propsLoop fuel region) (fun ps c => ps.size ≤ c ∧ c ≤ region.length) := by
+    Sat (propsLoop fuel region) (fun ps c => ps.size = c ∧ c = region.length) := by
   induction fuel generalizing region with
   | zero =>
     unfold propsLoop
@@ -308,7 +284,10 @@ theorem propsLoop_sat (fuel : Nat) (region : List Nat) (hf : region.length ≤ f
   | succ fuel ih =>
     unfold propsLoop
     split
-    · simp [Props.size]
+    · rename_i he
+      have : region = [] := by simpa using he
+      subst this
+      simp [Props.size]
     · refine sat_bind (Property.parse_sat region) fun p c ⟨h1, h2, h3⟩ => ?_
       refine sat_bind (ih (region.drop c) (by simp; omega)) fun ps c' ⟨h4, h5⟩ => ?_
       simp only [sat_ok, Props.size_cons]
@@ -317,7 +296,7 @@ theorem propsLoop_sat (fuel : Nat) (region : List Nat) (hf : region.length ≤ f
 
 theorem Props.parse_sat (data : List Nat) :
     Sat (Props.parse data)
-      (fun ps c => vbiSize ps.size + ps.size ≤ c ∧ c ≤ data.length ∧ ps.size ≤ vbiMax ∧ 1 ≤ c) := by
+      (fun ps c => vbiSize ps.size + ps.size = c ∧ c ≤ data.length ∧ ps.size ≤ vbiMax ∧ 1 ≤ c) := by
   unfold Props.parse
   split
   · trivial
@@ -326,8 +305,9 @@ theorem Props.parse_sat (data : List Nat) :
       obtain ⟨hv, hs, hc, _⟩ := vbiDec_ok h
       have hpos := vbiSize_pos v
       split
-      · simp only [sat_ok, Props.size, List.map_nil, List.sum_nil]
-        have : vbiSize 0 = 1 := by decide
+      · rename_i h0
+        subst h0
+        simp only [sat_ok, Props.size, List.map_nil, List.sum_nil]
         omega
       · simp only
         split
@@ -335,14 +315,15 @@ theorem Props.parse_sat (data : List Nat) :
         · refine sat_slice (by omega) (by omega) fun region hr => ?_
           refine sat_bind (propsLoop_sat region.length region (Nat.le_refl _)) fun ps c ⟨h1, h2⟩ => ?_
           simp only [sat_ok]
-          have := vbiSize_mono (show ps.size ≤ v by omega)
+          have : ps.size = v := by omega
+          rw [this]
           omega
     · trivial
 
 theorem parsePropsAt_sat (site : String) (validate : Props → Option Err) (data : List Nat) (cursor : Nat)
     (hc : cursor ≤ data.length) :
     Sat (parsePropsAt site validate data cursor)
-      (fun pp c => vbiSize pp.2 + pp.1.size ≤ c ∧ cursor + c ≤ data.length ∧ pp.2 = pp.1.size ∧ 1 ≤ c
+      (fun pp c => vbiSize pp.2 + pp.1.size = c ∧ cursor + c ≤ data.length ∧ pp.2 = pp.1.size ∧ 1 ≤ c
                     ∧ validate pp.1 = none) := by
   unfold parsePropsAt
   refine sat_sliceFrom hc fun d hd => ?_
